@@ -255,6 +255,9 @@ class RT:
         return [fn(a)(b) for a, bs in zip(xs, inner) for b in bs]
 
     def comp(self, kind, fn, it, flt):
+        from .heap import LazyProduct
+        if isinstance(it, LazyProduct):            # a comprehension over a product index list stays lazy (consumers decide what it means)
+            return LazyMap(kind, fn, it, flt)
         if isinstance(it, SymMap):
             it = it.enum()
         if isinstance(it, LazyMap):
